@@ -36,8 +36,8 @@ TABLE = [
     ("transform.resample_state", [P("traj", ("D",)), P("times", ("l", "a"), "a")], ["tab:trajectory_any_index"], False, []),
     ("transform.compute_state_difference[traj]", [P("traj", ("D",)), P("traj", ("D",))], ["tab:trajectory_error"], False, []),
     ("transform.compute_state_difference[pva]", [P("pva", ("S",)), P("pva", ("S",))], ["tab:pva_error"], False, []),
-    ("transform.smooth_rotations", [P("rot", ("a",)), P("dt", ("s",))], ["rot", "arr"], False, []),
-    ("transform.smooth_state", [P("traj", ("D",))], ["tab:trajectory_any_index"], False, []),
+    ("transform.smooth_rotations", [P("rot", ("a",)), P("dt", ("s",)), P("ratio", ("s",))], ["rot", "arr"], False, []),
+    ("transform.smooth_state", [P("traj", ("D",)), P("ratio", ("s",))], ["tab:trajectory_any_index"], False, []),
     ("transform.mat_en_from_ll", [P("lat", ("s", "a", "k")), P("lon", ("s", "a", "k"))], ["arr"], False, []),
     ("transform.mat_from_rph", [P("rph", V, "a")], ["arr"], False, []),
     ("transform.mat_to_rph", [P("mat", ("a", "k"))], ["arr"], False, []),
